@@ -48,7 +48,8 @@ RULE = ("random abelian and fermionic matrices (all symmetries; direct or obtain
         "structure of the factors (index tables, bond index, sectors, charges, sign tables, shapes) is diffed exactly "
         "against the Lean model; reconstruction and the per-block numeric clauses (orthonormality, triangularity, "
         "ordering, sign of the stabilised diagonal) are checked on the real factors with tolerance 1e-9 (1e-4 for "
-        "single precision). non-trivial: >= 2 blocks or a non-square block")
+        "single precision). non-trivial: >= 2 blocks or a non-square block"
+        '; solve with pending signs on the right-hand side')
 ANCHORS = {"linalg.py": ["qr", "qr_fermionic", "_get_qr_fn", "svd", "svd_fermionic", "eigh", "eigh_fermionic",
                          "solve", "solve_fermionic"]}
 ASSUMPTIONS = ["LAPACK per-block factorisations satisfy their contract (validated numerically here, not proved)"]
